@@ -26,19 +26,21 @@ func runC20(c *Ctx) {
 	// ---- break-releases-all
 	{
 		c.touch(fnKey(sync))
+		ra := resolveRegAnchors(p)
 		s := regSumm(p, 0)
+		s.HelperInline = ra.helperFilter(p, sync)
 		paths, _ := s.Function(sync)
 		tid, out := "param:"+sync.Params[1].Name(), "param:"+sync.Params[2].Name()
 		T := "lookup(recv.tables, " + tid + ")"
 		var bad []string
 		n := 0
 		for _, ps := range paths {
-			brk := ps.Calls(".breakTable")
+			brk := callsTo(ps, ra.breaker)
 			if len(brk) == 0 {
 				continue
 			}
 			okBreak := hasCond(ps, func(v *Val) bool {
-				return v.K == KAtom && v.At.Op == "is" && !v.Neg && strings.Contains(v.At.String(), "breakTable(") && strings.Contains(v.At.String(), "nil")
+				return v.K == KAtom && v.At.Op == "is" && !v.Neg && strings.Contains(v.At.String(), fnKey(ra.breaker)+"(") && strings.Contains(v.At.String(), "nil")
 			})
 			if !okBreak {
 				// break failed: nothing released
@@ -81,7 +83,7 @@ func runC20(c *Ctx) {
 			}
 			pend := hasCond(ps, func(v *Val) bool { return v.K == KAtom && v.At.Op == "eq" && !v.Neg && strings.HasPrefix(v.At.A.String(), "recv.status") })
 			if !pend {
-				if len(ps.Calls(".drainWaitingQueue")) == 0 {
+				if ra := resolveRegAnchors(p); ra.drainer == nil || len(callsTo(ps, ra.drainer)) == 0 {
 					bad = append(bad, "released players are queued but the queue is not drained although the competition is running")
 				} else {
 					nDrain++
